@@ -962,6 +962,7 @@ func ParseSpecFile(path, pkg string, isGo, trusted bool) (*SpecFile, error) {
 						v+".pos <= old("+v+".pos) + "+n,
 						errName+" == nil ==> "+v+".pos == old("+v+".pos) + "+n,
 						"[C08] old("+v+".len) - old("+v+".pos) < "+n+" ==> "+errName+" != nil",
+						"[C08] "+errName+" != nil ==> "+v+".short",
 						"[C01,C02,C03] "+v+".faultfree && old("+v+".len) - old("+v+".pos) >= "+n+" ==> "+errName+" == nil")
 				}
 			} else {
